@@ -379,6 +379,35 @@ def _restorers(ci) -> Set[str]:
     return out
 
 
+def _pure_value_memo(ci, attr: str) -> bool:
+    """Is the class-level table *attr* a memo of a pure function: every read of it in the class is a validated keyed-memo read
+    (util._keyed_memo_read: one key expression, the remembered expression determined by the key, only pure callees) and what is stored
+    is immutable (tuple(...) / a number / a string)?  Sharing such a table between instances shares no state."""
+    from ..util import _keyed_memo_read, _table_attr
+    reads = stores = 0
+    for f2 in [x for x in ast.walk(ci.node) if isinstance(x, (ast.FunctionDef, ast.AsyncFunctionDef))]:
+        for n in ast.walk(f2):
+            if isinstance(n, ast.Assign):
+                for t in n.targets:
+                    if isinstance(t, ast.Subscript) and _table_attr(f2, t.value) == attr:
+                        stores += 1
+            v = None
+            if isinstance(n, ast.Call) and isinstance(n.func, ast.Attribute) and n.func.attr == "get" and _table_attr(f2, n.func.value) == attr:
+                v = n
+            elif isinstance(n, ast.Subscript) and isinstance(n.ctx, ast.Load) and _table_attr(f2, n.value) == attr:
+                v = n
+            if v is not None:
+                reads += 1
+                got = _keyed_memo_read(ci.node, f2, v)
+                if got is None:
+                    return False
+                inner = got
+                if not ((isinstance(inner, ast.Call) and isinstance(inner.func, ast.Name) and inner.func.id in ("tuple", "round", "int", "float", "str", "len", "frozenset"))
+                        or isinstance(inner, ast.Constant)):
+                    return False
+    return reads > 0 and stores > 0
+
+
 def restore_function(idx: Index) -> FuncInfo:
     """The method of the server class that carries out the on-demand restore (the one that calls reconstruct_instance): pinned
     _ensure_instance_exists, or the helper it hands the work to."""
@@ -1853,6 +1882,9 @@ def check_c16(idx: Index, tier: str, res: Result) -> None:
                 if isinstance(v, (ast.Dict, ast.List, ast.Set)) or (isinstance(v, ast.Call) and call_name(v) in ("dict", "list", "set", "defaultdict")):
                     if isinstance(tg, ast.Name) and _read_only_table(idx, tg.id):
                         res.ob("STATICS", "%s.%s is a look-up table that is only ever read" % (cname, tg.id), True, nontrivial=False)
+                        continue
+                    if isinstance(tg, ast.Name) and _pure_value_memo(c, tg.id):
+                        res.ob("STATICS", "%s.%s remembers immutable values of a pure function under a key that determines them" % (cname, tg.id), True, nontrivial=False)
                         continue
                     nstat += 1
                     res.check("STATICS", "%s.%s is not a class-level mutable" % (cname, src(tg)), False, "%s:%d" % (rel, n.lineno), cname, norm_stmt(n)[:80],
